@@ -187,16 +187,23 @@ pub(crate) fn apply_rules_on_link(
         product_paths.difference(&material_paths).cloned().collect();
     let deleted: BTreeSet<_> =
         material_paths.difference(&product_paths).cloned().collect();
+    // the recorded paths are not necessarily canonical (e.g. `./foo`), so
+    // the digests have to be looked up by canonical path as well
+    let digests_by_canonical_path =
+        |artifacts: &BTreeMap<VirtualTargetPath, TargetDescription>| {
+            artifacts
+                .iter()
+                .filter_map(|(path, digests)| {
+                    canonicalize_path(path).map(|path| (path, digests.clone()))
+                })
+                .collect::<BTreeMap<VirtualTargetPath, TargetDescription>>()
+        };
+    let material_digests = digests_by_canonical_path(&src_link.materials);
+    let product_digests = digests_by_canonical_path(&src_link.products);
     let modified: BTreeSet<_> = material_paths
         .intersection(&product_paths)
+        .filter(|name| material_digests.get(name) != product_digests.get(name))
         .cloned()
-        .filter_map(|name| {
-            if src_link.materials[&name] != src_link.products[&name] {
-                Some(name)
-            } else {
-                None
-            }
-        })
         .collect();
 
     #[derive(Debug)]
